@@ -10,7 +10,32 @@ import (
 // when the lock is acquired and must hold when it is released (CSL mutex rule;
 // the soundness of the rule is trusted, its premises are checked here).
 func (e *Exec) onLock(st *State, fr *Frame, site ssa.Instruction, m *Term, exclusive, acquire bool) {
+	if acquire && exclusive {
+		// state guarded by the lock may have been changed by other threads while
+		// it was free: the per-lock frame counter is unknown at acquisition and is
+		// remembered in G_acq so that post-conditions can talk about "since acquire"
+		if _, ok := e.db.ghosts["nframes"]; ok {
+			if _, ok2 := e.db.ghosts["acq"]; ok2 {
+				v := Const(freshName("nframes.acq"), SInt)
+				e.assume(Ge(v, IntLit(0)))
+				e.setGhost(st, "nframes", SInt, m, v)
+				e.setGhost(st, "acq", SInt, m, v)
+			}
+		}
+	}
 	for key, inv := range e.db.lockinvs {
+		if strings.HasPrefix(key, "any") {
+			// generic invariant over the mutex reference `m`
+			ctx := e.newSpecCtx(st, e.P.tpkgs[pkgGldap], st.frames[0].entry)
+			ctx.vars["m"] = &specVar{v: m, t: tInt}
+			g := ctx.evalBool(inv.Expr)
+			if acquire {
+				e.assume(g)
+			} else if exclusive {
+				e.check(st, fr, "LOCK.inv", site, "lockinv "+key+": "+inv.Text+" | "+e.P.srcLine(site.Pos()), g)
+			}
+			continue
+		}
 		// key: pkg.Type.field
 		i := strings.LastIndex(key, ".")
 		tname, fname := key[:i], key[i+1:]
